@@ -244,3 +244,52 @@ TEXT["C06"] = {
     "note": GW_NOTE + " Partial: no positive theorem is proved (exchanges with disjoint live message IDs are covered by the correspondence only); the schedule part of the quantifier is outside the event-atomic models.",
     "technique": "Coq refutation theorems with replayed witnesses + direction-aware exchange monitor on the implementation traces + differential execution",
 }
+
+MON_NOTE = (" The statement is a monitor (Checkers/ChkGw3.v) folded over a history next to the model; the theorem is proved for all "
+            "histories by an invariant tying the monitor to the model state; the same monitor is extracted and fed with the "
+            "implementation's observations (virtual ms under synctest).")
+TEXT.update({
+    "C10": {
+        "level": "Theorem C10_all_histories: for every history, once a connect exchange is pending (any prefix of any exchange shape, "
+                 "CONNACK outstanding included) the session has ended - Run returned, broker connection closed - by 5000 + 100 ms "
+                 "after the client's last packet, whatever client and broker do or do not send; end times of the real handler1 are "
+                 "compared exactly with the model.",
+        "note": GW_NOTE + MON_NOTE + " Side condition: executable clock_ok (the model's timer fuel is not exhausted).",
+        "technique": "Coq invariant over all timed histories (monitor + timers of the step function) + differential execution with exact virtual end times",
+    },
+    "C13": {
+        "level": "Theorem C13_all_histories: for every history and every point at which a termination cause occurs (shutdown, plain "
+                 "DISCONNECT, broker EOF/garbage, undecodable or illegal packet), Run returns within 100 ms and the client gets a "
+                 "DISCONNECT datagram exactly when it was active or awake and did not disconnect itself. Goroutine exit is observed "
+                 "on the implementation (synctest leak detection + goroutine census on every history), not modelled.",
+        "note": GW_NOTE + MON_NOTE + " Partial: 'no goroutine outlives the session' is an observation of the runs, not a theorem.",
+        "technique": "Coq invariant over all timed histories + differential execution with exact virtual end times + goroutine census",
+    },
+    "C34": {
+        "level": "Theorems C34_refuted / C34_partial: under the property's broker assumption a session outlives its vanished client only "
+                 "while the gateway writes to the broker on its own; the model refutes this (sleep pinger cancelled only by its own "
+                 "timer; witness replayed on the implementation, known finding) and satisfies it for every history in which, while a "
+                 "pinger is scheduled, the session stays asleep and no new sleep is announced (executable c34_excluded).",
+        "note": GW_NOTE + MON_NOTE + " Partial: one excluded class (known finding).",
+        "technique": "Coq refutation witness + partial invariant theorem over all timed histories + differential execution of long-sleep / vanishing-client histories",
+    },
+    "C12": {
+        "level": "Theorems C12_refuted_*: the faithful model violates the property in three independent ways (local-only traffic of an "
+                 "active client; sleep not longer than the keep-alive; first ping a full period after the DISCONNECT), each a timed "
+                 "witness reproduced on the implementation (known findings by clause and client state). Proved part: traffic of an "
+                 "active client that has an MQTT translation reaches the broker in the same step; a pinger writes PINGREQ every "
+                 "keep-alive period. The monitor reports any 1.5 x keep-alive window without a broker write for a compliant client.",
+        "note": GW_NOTE + MON_NOTE + " Partial: the property does not hold of the pinned code; only step lemmas are proved positively.",
+        "technique": "Coq refutation witnesses + step lemmas + keep-alive window monitor on the implementation traces",
+    },
+})
+
+TEXT["C16"] = {
+    "level": "Theorems C16_*: (safety, proved) while the budget lasts the gateway's retry timer writes exactly the stored REGISTER / "
+             "PUBLISH / PUBREL with DUP set (same message ID, topic, payload) and re-arms RetryDelay later; after RetryCount "
+             "unanswered retransmissions it writes nothing and removes the exchange; the client answers every PUBREL, also for a "
+             "finished exchange, with one PUBCOMP. (Liveness, NOT proved) delivery and acknowledgement within the retry budget is "
+             "checked by the end-to-end monitor on the real client + real gateway joined by a lossy link, against the composed model.",
+    "note": COMMON_NOTE + " Partial: only the safety clauses are theorems; the liveness clause over all loss patterns is tested (generated fault lists within and beyond the budget), not proved.",
+    "technique": "Coq step lemmas on the retry timer (gateway) and PUBREL handling (client) + end-to-end differential execution over a lossy link with a liveness monitor",
+}
